@@ -406,7 +406,13 @@ func (b *Builder) structHash(t *types.Struct) (ret []byte, pkg string) {
 			name = "-"
 		}
 		ft, _ := b.TypeName(f.Type())
-		fmt.Fprintln(h, name, ft)
+		if tag := t.Tag(i); tag != "" {
+			// Tags are part of type identity (struct{A int `x`} and struct{A int `y`} are
+			// different types). Untagged structs keep their names.
+			fmt.Fprintln(h, name, ft, strconv.Quote(tag))
+		} else {
+			fmt.Fprintln(h, name, ft)
+		}
 	}
 	ret = h.Sum(b.buf[:0])
 	return
